@@ -15,18 +15,22 @@ structure SameIdx (s t : State) : Prop where
   vpnIps : t.vpnIps = s.vpnIps
   pidx : t.pidx = s.pidx
   next : t.next = s.next
+  rs : t.rs = s.rs
 
-theorem SameIdx.refl (s : State) : SameIdx s s := ⟨rfl, rfl, rfl, rfl, rfl, rfl, rfl⟩
+theorem SameIdx.refl (s : State) : SameIdx s s := ⟨rfl, rfl, rfl, rfl, rfl, rfl, rfl, rfl⟩
 
 theorem SameIdx.trans {s t u : State} (a : SameIdx s t) (b : SameIdx t u) : SameIdx s u :=
   ⟨b.indexes.trans a.indexes, b.rindexes.trans a.rindexes, b.relays.trans a.relays, b.objs.trans a.objs,
-   b.vpnIps.trans a.vpnIps, b.pidx.trans a.pidx, b.next.trans a.next⟩
+   b.vpnIps.trans a.vpnIps, b.pidx.trans a.pidx, b.next.trans a.next, b.rs.trans a.rs⟩
 
 theorem SameIdx.obj {s t : State} (a : SameIdx s t) (h : Nat) : t.obj h = s.obj h := by
   simp [State.obj, a.objs]
 
+theorem SameIdx.rstate {s t : State} (a : SameIdx s t) (h : Nat) : t.rstate h = s.rstate h := by
+  simp [State.rstate, a.rs]
+
 theorem setHosts_same (s : State) (a : Nat) (l : List Nat) : SameIdx s (setHostsForAddr s a l) :=
-  ⟨by simp, by simp, by simp, by simp, by simp, by simp, by simp⟩
+  ⟨by simp, by simp, by simp, by simp, by simp, by simp, by simp, by simp⟩
 
 theorem hostList_more {s : State} {a : Nat} {l : List Nat} (h : s.more.get a = some l) : hostList s a = l := by
   simp [hostList, h]
@@ -58,7 +62,7 @@ theorem delAddrStep_spec (h : Nat) (s : State) (f : Bool) (a : Nat) (hr : Rep s)
       by_cases he : e = h
       · subst he
         simp only [↓reduceIte, List.erase_cons_head, List.isEmpty_nil, Bool.and_true]
-        refine ⟨fun a' => ?_, trivial, ?_, ⟨rfl, rfl, rfl, rfl, rfl, rfl, rfl⟩⟩
+        refine ⟨fun a' => ?_, trivial, ?_, ⟨rfl, rfl, rfl, rfl, rfl, rfl, rfl, rfl⟩⟩
         · by_cases e' : a' = a
           · subst e'; simp [hostList, hm, get_del]
           · simp [hostList, get_del, e', Ne.symm e']
@@ -117,20 +121,21 @@ theorem delRelayLoop_spec (h : Nat) (l : List Nat) : ∀ s : State,
     let r := l.foldl (delRelayStep h) s
     (∀ i, r.relays.get i = if i ∈ l ∧ s.relays.get i = some h then none else s.relays.get i) ∧
     r.hosts = s.hosts ∧ r.more = s.more ∧ r.indexes = s.indexes ∧ r.rindexes = s.rindexes ∧ r.objs = s.objs ∧
-    r.vpnIps = s.vpnIps ∧ r.pidx = s.pidx ∧ r.next = s.next := by
+    r.vpnIps = s.vpnIps ∧ r.pidx = s.pidx ∧ r.next = s.next ∧ r.rs = s.rs := by
   induction l with
   | nil => intro s; simp
   | cons x t ih =>
     intro s
     simp only [List.foldl_cons]
-    obtain ⟨g1, g2, g3, g4, g5, g6, g7, g8, g9⟩ := ih (delRelayStep h s x)
+    obtain ⟨g1, g2, g3, g4, g5, g6, g7, g8, g9, g10⟩ := ih (delRelayStep h s x)
     have fr : (delRelayStep h s x).hosts = s.hosts ∧ (delRelayStep h s x).more = s.more ∧
         (delRelayStep h s x).indexes = s.indexes ∧ (delRelayStep h s x).rindexes = s.rindexes ∧
         (delRelayStep h s x).objs = s.objs ∧ (delRelayStep h s x).vpnIps = s.vpnIps ∧
-        (delRelayStep h s x).pidx = s.pidx ∧ (delRelayStep h s x).next = s.next := by
+        (delRelayStep h s x).pidx = s.pidx ∧ (delRelayStep h s x).next = s.next ∧ (delRelayStep h s x).rs = s.rs := by
       unfold delRelayStep; split <;> simp
     refine ⟨fun i => ?_, g2.trans fr.1, g3.trans fr.2.1, g4.trans fr.2.2.1, g5.trans fr.2.2.2.1,
-      g6.trans fr.2.2.2.2.1, g7.trans fr.2.2.2.2.2.1, g8.trans fr.2.2.2.2.2.2.1, g9.trans fr.2.2.2.2.2.2.2⟩
+      g6.trans fr.2.2.2.2.1, g7.trans fr.2.2.2.2.2.1, g8.trans fr.2.2.2.2.2.2.1, g9.trans fr.2.2.2.2.2.2.2.1,
+      g10.trans fr.2.2.2.2.2.2.2.2⟩
     rw [g1 i]
     unfold delRelayStep
     by_cases hx : s.relays.get x = some h
